@@ -142,8 +142,21 @@ func checkConc(prop, tier string, pkgs []concPkg) {
 				return
 			}
 			shards := workers
-			parDo(shards, func(sh int) {
-				r := run(dir, time.Duration(budget+120)*time.Second, nil, filepath.Join(dir, "explore.bin"), tier, fmt.Sprint(sh), fmt.Sprint(shards), fmt.Sprint(maxStates), fmt.Sprint(budget))
+			// the number of processors is owned too when the generated code asks for it:
+			// explore with 1 and 2 in addition to the machine's value
+			procsVals := []string{""}
+			if cnt["procs"] > 0 {
+				procsVals = []string{"", "1", "2"}
+			}
+			parDo(shards*len(procsVals), func(job int) {
+				sh, pv := job%shards, procsVals[job/shards]
+				var penv []string
+				psuffix := ""
+				if pv != "" {
+					penv = []string{"VERIF_PROCS=" + pv}
+					psuffix = " [GOMAXPROCS=" + pv + "]"
+				}
+				r := run(dir, time.Duration(budget+120)*time.Second, penv, filepath.Join(dir, "explore.bin"), tier, fmt.Sprint(sh), fmt.Sprint(shards), fmt.Sprint(maxStates), fmt.Sprint(budget))
 				if r.Exit != 0 {
 					rep.Infra(fmt.Sprintf("explorer %s shard %d: exit %d: %s", pk.name, sh, r.Exit, tail(r.Stderr, 800)))
 					return
@@ -156,7 +169,7 @@ func checkConc(prop, tier string, pkgs []concPkg) {
 						rep.Infra("bad explorer output: " + head(sc.Text(), 200))
 						continue
 					}
-					mr.Name += pk.suffix()
+					mr.Name += pk.suffix() + psuffix
 					mu.Lock()
 					all = append(all, mr)
 					mu.Unlock()
